@@ -9,11 +9,14 @@ import (
 	"encoding/hex"
 	"fmt"
 	"os"
+	"path/filepath"
 	"runtime"
+	"strings"
 	"sync/atomic"
 	"time"
 
 	"github.com/alephium/wormhole-fork/node/pkg/vaa"
+	"github.com/alephium/wormhole-fork/node/verifh/cm"
 	"github.com/alephium/wormhole-fork/node/verifh/ev"
 	"github.com/alephium/wormhole-fork/node/verifh/vaacoop"
 	"github.com/alephium/wormhole-fork/node/verifh/mc"
@@ -364,6 +367,34 @@ func main() {
 
 	// ---- (a'') concurrent callers under every schedule with <= 2 (thorough 3) preemptions
 	nontriv += int64(vaacoop.Explore(r, r.Pick(2, 3), r.Thorough()))
+
+	// ---- (a''') the contract-side decoders of the same encoding (layout tables extracted at check time): where the
+	// body starts for a VAA with n signatures must be where the Go encoder puts it, for every n - in particular
+	// for more signatures than a quorum (the contract test suites only ever submit exactly a quorum)
+	for _, src := range []string{"ethereum/contracts/Messages.sol", "alephium/contracts/governance.ral"} {
+		var L *cm.VMLayout
+		var err error
+		if strings.HasSuffix(src, ".sol") {
+			L, err = cm.ExtractSolidityParseVM(filepath.Join(r.Repo, src))
+		} else {
+			L, err = cm.ExtractRalphParseVAA(filepath.Join(r.Repo, src))
+		}
+		if err != nil {
+			ev.Broken("%s: %v", src, err)
+		}
+		if L.BodyStartVar != L.SigCountVar {
+			r.Violation("counterpart decoder: "+filepath.Base(src)+" locates the body with another quantity than the number of signatures the encoding carries", fmt.Sprintf("body start = %d + %s * %d; signature count is read into %s", L.BodyStartC, L.BodyStartVar, L.BodyStartPer, L.SigCountVar), L)
+		}
+		for _, ns := range []int{0, 1, 2, 3, 4, 13, 14, 19, 255} {
+			c := valueCase{Version: 1, NSigs: ns, PayloadLn: 7}
+			b, _ := c.build().Marshal()
+			goStart := len(b) - 53 - 7
+			if L.BodyStartC+L.BodyStartPer*ns != goStart {
+				r.Violation("counterpart decoder: "+filepath.Base(src)+" expects the body at another offset than the Go encoder writes it", fmt.Sprintf("%d signatures: contract %d, encoder %d", ns, L.BodyStartC+L.BodyStartPer*ns, goStart), L)
+			}
+		}
+		nontriv += 9
+	}
 
 	// ---- (b) byte space
 	// every byte string of length 0..2
